@@ -2941,8 +2941,11 @@ namespace Clipper2Lib {
 
   bool ClipperBase::CheckSplitOwner(OutRec* outrec, OutRecList* splits)
   {
-    for (auto split : *splits)
+    // nb: splits->size() may change in the following loop because
+    // CheckBounds can split polygons (and hence append to this list)
+    for (size_t i = 0; i < splits->size(); ++i)
     {
+      OutRec* split = (*splits)[i];
       if (!split->pts && split->splits &&
         split->recursive_split != outrec) // prevent infinite loops
       {
